@@ -15,7 +15,8 @@ RULE = ("conv probe, no scripted backend panics: (a) command lines of length lim
         "contains 'long' so that any execution of it or of a prefix is visible; (a') the same over-long lines after histories that touch the limiter: between BDAT chunks, after a refused / last chunk, after DATA, after RSET inside a chunked transfer, and as the answer to a SASL challenge arriving in two segments; (b) endless LF-free input; (c) every string up to "
         "length 4 (thorough 5) over {NUL, CR, LF, SP, 'A', ':', 0xFF} as a command line; (c') every string up to length 3 (thorough 4) over {double quote, backslash, '<', '>', '@', 'a', SP, ':', '=', '+', '.'} as the argument of MAIL FROM:, RCPT TO:, AUTH= , ORCPT= and AUTH; (d) seeded random binary segments; (e) mixes of valid "
         "and invalid commands around the error threshold; (f) random walks without panic letters. non-trivial = the conversation "
-        "contains an invalid, over-long or binary line; distinct = distinct case line")
+        "contains an invalid, over-long or binary line; distinct = distinct case line | sched probe with `latestart` (the command loop does not wait "
+        "for the delivery goroutine): the peer disconnects / QUITs / RSETs right after a BDAT command, SMTP and both LMTP modes, repeated: no recovered panic may be logged")
 THEOREMS = ["C19_short_lines_ok", "C19_long_line_trips", "C19_long_line_refused", "C19_error_threshold", "C19_tripped_ends_commands"]
 signature = cc.signature
 mutate = cc.mutate
@@ -40,7 +41,7 @@ def project(case, ans):
 SAFE = [x for x in g.ALPHABET if "panic" not in x[0] and "lmtpstatus" not in x[0]]
 
 
-def groups(tier, rng):
+def _groups0(tier, rng):
     lines, endless, short, binary, thresh = [], [], [], [], []
     for lim in (40, 64, 2000):
         for n in range(lim - 2, lim + 4):                    # total line length including CRLF
@@ -182,5 +183,34 @@ def groups(tier, rng):
             mk("error-threshold", thresh), mk("walks-no-panic", walks)]
 
 
+def late_start_cases(tier, rng):
+    """The peer goes away (or the transfer is abandoned) right after a BDAT command was accepted, and the command loop does not wait for
+    the delivery goroutine to reach the backend (`latestart`: the schedule of a production server).  No input may make the server
+    log a recovered panic; here: the delivery must not find the session gone."""
+    cases = []
+    seg = lambda *ls: "seg:" + hx(b"".join(ls))
+    for lm, sess in ((0, 0), (1, 0), (1, 1)):
+        pre = [b"LHLO x\r\n" if lm else b"EHLO x\r\n", b"MAIL FROM:<a@b>\r\n", b"RCPT TO:<c@d>\r\n"]
+        tails = [[b"BDAT 5\r\n"], [b"BDAT 5 LAST\r\n"], [b"BDAT 5\r\nab"], [b"BDAT 3\r\nabc", b"QUIT\r\n"], [b"BDAT 3\r\nabc"],
+                 [b"BDAT 3\r\nabc", b"RSET\r\n"], [b"BDAT 0\r\n"], [b"BDAT 70000\r\n" + b"x" * 100]]
+        for t in tails:
+            for _ in range(3 if tier == "quick" else 12):
+                cfg = g.cfg_str(dict(lmtp=lm, lmtpsess=sess))
+                cases.append("\t".join(["sched", cfg, "NS=;MAIL=;RCPT=;DATA=;AUTH=;SASL=;HS=", ";".join(["latestart", seg(*pre, *t), "eof"])]))
+    return cases
+
+
+def _proj_late(case, ans):
+    if not case.startswith("sched"):
+        return project(case, ans)
+    return "panic-logged" if "PANIC" in ans else "no-panic" + ("|HANG" if "HANG" in ans else "")
+
+
+def groups(tier, rng):
+    return _groups0(tier, rng) + [Group("sched/disconnect-before-delivery-starts", late_start_cases(tier, rng), project=_proj_late,
+                                        theorems=THEOREMS)]
+
+
 def replay_groups(path):
-    return [Group("replay", [json.load(open(path))["case"]], project=project, theorems=THEOREMS)]
+    case = json.load(open(path))["case"]
+    return [Group("replay", [case], project=_proj_late if case.startswith("sched") else project, theorems=THEOREMS)]
